@@ -282,7 +282,7 @@ impl Property for C07 {
         }
     }
     fn rule(&self) -> &'static str {
-        "corpus grid cells and generated sources (long strings, long/multi-line comments with trailing blanks, unbreakable calls and chains, multi-line and raw strings, macro bodies left verbatim, macro definitions, skip-marked items / statements / arms / fields containing long lines and trailing blanks) x max_width 20..200 x tab_spaces 1..8 x hard_tabs x the four error_on_line_overflow / error_on_unformatted combinations x up to 3 layout options; optionally file_lines over an already formatted text; oracle: an independent per-line recomputation over the emitted text (character count with tabs as tab_spaces, last character blank, comment-line and string-literal classification from rustc_lexer tokens, skipped code from an independent parse of the emitted text: nodes carrying a skip attribute, or macro invocations for ranges rustfmt recorded as left verbatim) gives the exact set of (line, kind) that must be reported; compared in both directions with the report entries read through the hook, including file name, found/maximum widths; every reported line makes the run count as failed (also next to attribute diagnostics); when a trailing blank must be reported the binary must exit 1 and name the line; non-trivial = at least one line of the emitted text is too wide or ends in a blank; distinct by case content"
+        "corpus grid cells and generated sources (long strings, long/multi-line comments with trailing blanks, unbreakable calls and chains, multi-line and raw strings, macro bodies left verbatim, macro definitions, skip-marked items / statements / arms / fields containing long lines and trailing blanks) x max_width 20..200 x tab_spaces 1..8 x hard_tabs x the four error_on_line_overflow / error_on_unformatted combinations x up to 3 layout options; optionally file_lines over an already formatted text; oracle: an independent per-line recomputation over the emitted text (character count with tabs as tab_spaces, last character blank, comment-line and string-literal classification from rustc_lexer tokens, skipped code from an independent parse of the emitted text: nodes carrying a skip attribute, or macro invocations for ranges rustfmt recorded as left verbatim) gives the exact set of (line, kind) that must be reported; compared in both directions with the report entries read through the hook, including file name, found/maximum widths; every reported line makes the run count as failed (also next to attribute diagnostics); when a trailing blank must be reported the binary (plain, or with --check) must exit 1 and name the line; non-trivial = at least one line of the emitted text is too wide or ends in a blank; distinct by case content"
     }
     fn assumptions(&self) -> Vec<&'static str> {
         vec![
@@ -325,7 +325,7 @@ impl Property for C07 {
         } else {
             None
         };
-        json!({"src": src, "opts": opts_to(&opts), "origin": "gen", "gen_labels": labels, "file_lines": file_lines, "binary": c.chance(1, 6)})
+        json!({"src": src, "opts": opts_to(&opts), "origin": "gen", "gen_labels": labels, "file_lines": file_lines, "binary": c.chance(1, 6), "binary_check": c.flip()})
     }
     fn run(&self, case: &Value, r: &RunCtx) -> Outcome {
         let mut src = case["src"].as_str().unwrap_or("").to_string();
@@ -602,10 +602,23 @@ impl Property for C07 {
         if any_trailing_reported && case["binary"].as_bool() == Some(true) && ranges.is_none() {
             let cfg: Vec<String> = opts.iter().map(|(k, v)| format!("{k}={v}")).collect();
             let mut cmd = Command::new(r.bin_dir.join("rustfmt"));
+            // (the exit status must not depend on --check: the text is settled, so check mode
+            // finds no difference, and the blank is still there)
+            let mut with_check = case["binary_check"].as_bool() == Some(true);
+            if with_check {
+                // only when the emitted text is a fixed point that still carries the blank
+                let again = format_text(&text, &opts);
+                with_check = again.text == text && again.has_operational_errors && again.has_unformatted_code_errors;
+            }
+            if with_check {
+                cmd.arg("--check");
+                o.labels.push("binary-with-check".into());
+            }
+            let stdin_text: &str = if with_check { &text } else { &src };
             cmd.arg("--config").arg(cfg.join(",")).current_dir(&r.tmp).env("RUSTC_ICE", "0").stdin(Stdio::piped()).stdout(Stdio::piped()).stderr(Stdio::piped());
             if let Ok(mut child) = cmd.spawn() {
                 if let Some(mut si) = child.stdin.take() {
-                    let _ = si.write_all(src.as_bytes());
+                    let _ = si.write_all(stdin_text.as_bytes());
                 }
                 if let Ok(res) = child.wait_with_output() {
                     let err = String::from_utf8_lossy(&res.stderr);
